@@ -229,7 +229,7 @@ func runSessionRaw(in sessIn) (*sessObs, Sx) {
 		if c.NoDial {
 			continue
 		}
-		scripts = append(scripts, connScript{Groups: c.Groups, Cert: c.Cert, IdleDropMs: 400})
+		scripts = append(scripts, connScript{Groups: c.Groups, Cert: c.Cert, IdleDropMs: 400, StallDropMs: 3000})
 	}
 	srv, err := startScriptedServer(scripts)
 	if err != nil {
